@@ -194,18 +194,6 @@ def run(tier, seed):
             first = False
         os.remove(tr)
     ck.extra["per_optimiser"] = stats
-    # 3. probe of the known finding (simplex method stops early on some quadratics with condition number >= 50 in
-    #    dimension >= 5, a region the main scenarios are steered away from): fixed scenario, steering off
-    tr = os.path.join(wd, "probe-dsm.ndjson")
-    vc.run_driver(exe, ["--only", "DownhillSimplex", "--n", 6000, "--sc", 4352, "--nosteer", 1], tr, timeout=600, env={"VERIF_SEED": "777"})
-    n_ev, rej, st = vc.validate_trace(SPEC, "OptimizerTrace", TCFG, tr, parallel=1, heap="1g")
-    ck.events += n_ev
-    ck.traces += 1
-    ck.extra["probe_simplex_premature_stop_reproduces"] = bool(rej)
-    ck.handle_rejections(rej, _sig)
-    os.remove(tr)
-    for f in glob.glob(os.path.join(SPEC, "*_TTrace_*")):
-        os.remove(f)
     ck.rule = ("seeded random scenarios: 11 optimisers round-robin x dim 1..6 (1-D optimisers in 1-D) x SPD quadratics (cond<=1e3) / two "
                "smooth convex non-quadratic families x random starts x interval constraints containing start and minimiser (none/wide/mixed/"
                "tight, open or closed ends) x 3 policies x tolerance 1e-4..1e-10 x budgets {1..200, 20000} x call histories (optimize before "
